@@ -146,8 +146,31 @@ def run(ctx):
     ctx.rule("R7a", "discarded error channel: Result::unwrap/expect inventory by error type and source callee (API-layer modules and automerge-c)")
     ctx.rule("R7d", "API-layer inventory of panic-capable constructs with the transaction-open, typestate and len-guard discharge patterns")
     ctx.rule("R7e", "caller-supplied object ids are resolved through exid_to_obj / exid_to_opid only")
+    ctx.rule("R8-visit", "worklist discipline of the graph walks behind fork_at / get_changes / get_missing_deps (C17's rule, re-run): a seed or successor entered twice is collected twice and trips an unwrap / assert in the change collector")
     f = ctx.facts()
     C15.check_r7a(ctx, f, "C37")
+    from . import C17
+    C17.check_worklists(ctx, f, ctx.table("c17_sizes.tsv"))
+    # ---------------- AutoCommit's own patch log outlives the transaction: it is told that the transaction ended *after* the document
+    # reached its final actor table (a rolled-back first change removes its actor), otherwise the log keeps an actor the document
+    # dropped and the next begin_transaction / migrate_actors fails (expect on PatchLogMismatch)
+    ctx.rule("R10-finish", "ordering: in AutoCommit (and its closures) PatchLog::finish_transaction is dominated by the TransactionInner::commit / rollback call of the same body")
+    n_fin = 0
+    for p, r in sorted(f.fns.items()):
+        if r["ckey"] != ("automerge", "lib") or not norm_fn(p).startswith("automerge::autocommit::AutoCommit::"):
+            continue
+        b = cfg.body(r)
+        fin = [(bi, t) for bi, t in b.calls() if (callee(t) or "").endswith("PatchLog::finish_transaction")]
+        ends = [bi for bi, t in b.calls() if (callee(t) or "").startswith("automerge::transaction::inner::TransactionInner::") and callee(t).split("::")[-1] in ("rollback", "commit")]
+        if not fin or not ends:
+            continue
+        ctx.analysed_fns.add(p)
+        for k, (bi, t) in util.ordinal_keys(fin, lambda it: "%s|finish_transaction" % norm_fn(p)):
+            n_fin += 1
+            ok = any(b.block_dominates(e, bi) and e != bi for e in ends)
+            ctx.ob("R10-finish", k, ok, t["sp"], "after the transaction ended" if ok else
+                   "the patch log is told the transaction finished before the document committed / rolled back: after a rolled-back first change the log keeps an actor the document no longer has, and the next write panics on the mismatch")
+    ctx.floor("finish_transaction calls paired with a transaction end in AutoCommit", n_fin, 3)
     # ---------------- typestate of the two transaction handles
     seen, bad = inner_emptied_only_by_consumers(f)
     ctx.floor("Option::take on a transaction handle's inner slot", seen, 7)
